@@ -78,8 +78,11 @@ def run_unit(unit, seed=0, both=False):
         if unit.kind == 'lemma':
             lm = unit.info['lemma']
             for arm, v in lem.prove_lemma(lm, _LIB, seed=seed):
+                model = None
+                if v.status == 'refuted' and getattr(v, 'inputs', None):
+                    model = decode_model(v.model, {k: engine.SV(t, 'term') for k, t in v.inputs.items()})
                 res['obligations'].append({'name': arm, 'status': v.status, 'backend': v.backend, 'seconds': v.seconds,
-                                           'kind': 'lemma', 'model': None, 'detail': v.detail})
+                                           'kind': 'lemma', 'model': model, 'detail': v.detail})
             res['paths'] = 1
             res['seconds'] = time.time() - t0
             return res
